@@ -30,6 +30,8 @@ def configs(tier):
                     if tier == "quick" and B == 3 and nc == 2: continue
                     d = 0 if kind == "ode" else (1 if (B + nc) % 2 else 2)
                     out.append(dict(kind=kind, B=B, nc=nc, w=w, d=d, extra=(B == 2), H=1 if tier == "quick" or B > 2 else 2))
+        for B in (1, 2, 3):     # a one-component residual returned as a bare scalar (no component axis)
+            out.append(dict(kind=kind, B=B, nc=1, w="scalar", d=(0 if kind == "ode" else 1), extra=False, H=1, scalar_res=True))
     return out
 
 
@@ -42,13 +44,21 @@ def build(cfg):
     from jinns.data._Batchs import ODEBatch, PDEStatioBatch, PDENonStatioBatch
     kind, B, nc, wk, d, extra = cfg["kind"], cfg["B"], cfg["nc"], cfg["w"], cfg["d"], cfg["extra"]
     w0 = jnp.array(0.75) if wk == "scalar" else jnp.arange(1, nc + 1) * 0.5
+    _stack = jnp.stack
+    if cfg.get("scalar_res"):
+        class _J:       # the equation returns its single component as a scalar
+            @staticmethod
+            def stack(xs): return xs[0]
+        jnp_ = _J
+    else:
+        jnp_ = jnp
 
     if kind == "ode":
         class UserODE(ODE):
             def equation(self, t, u, params):
                 th = params.eq_params["theta"]
                 du = jax.grad(lambda t: u(t, params)[0])(t)
-                return jnp.stack([psi(c)((1.0 + c) * (du if c == 0 else u(t, params)[0]) + 0.5 * t + (2.0 - c) * th) for c in range(nc)])
+                return jnp_.stack([psi(c)((1.0 + c) * (du if c == 0 else u(t, params)[0]) + 0.5 * t + (2.0 - c) * th) for c in range(nc)])
         u = mk_pinn(1, 1, "ODE", deg=2, H=cfg["H"])
         params = Params(nn_params=u.init_params(), eq_params={"theta": jnp.array(0.3)})
         dl = UserODE(Tmax=1)
@@ -61,7 +71,7 @@ def build(cfg):
             def equation(self, x, u, params):
                 th = params.eq_params["theta"]
                 dux = jax.grad(lambda x: u(x, params)[0])(x)[0]
-                return jnp.stack([psi(c)((1.0 + c) * (dux if c == 0 else u(x, params)[0]) + 0.5 * x[0] + 0.25 * x[-1] * (d - 1) + (2.0 - c) * th) for c in range(nc)])
+                return jnp_.stack([psi(c)((1.0 + c) * (dux if c == 0 else u(x, params)[0]) + 0.5 * x[0] + 0.25 * x[-1] * (d - 1) + (2.0 - c) * th) for c in range(nc)])
         u = mk_pinn(d, 1, "statio_PDE", deg=2, H=cfg["H"])
         params = Params(nn_params=u.init_params(), eq_params={"theta": jnp.array(0.3)})
         dl = UserStatio(Tmax=1)
@@ -74,7 +84,7 @@ def build(cfg):
             def equation(self, t, x, u, params):
                 th = params.eq_params["theta"]
                 dut = jax.grad(lambda t: u(t, x, params)[0])(t)[0]
-                return jnp.stack([psi(c)((1.0 + c) * (dut if c == 0 else u(t, x, params)[0]) + 2.0 * t[0] + 3.0 * x[0] + 0.25 * x[-1] * (d - 1) + (2.0 - c) * th) for c in range(nc)])
+                return jnp_.stack([psi(c)((1.0 + c) * (dut if c == 0 else u(t, x, params)[0]) + 2.0 * t[0] + 3.0 * x[0] + 0.25 * x[-1] * (d - 1) + (2.0 - c) * th) for c in range(nc)])
         u = mk_pinn(1 + d, 1, "nonstatio_PDE", deg=2, H=cfg["H"])
         params = Params(nn_params=u.init_params(), eq_params={"theta": jnp.array(0.3)})
         dl = UserNonStatio(Tmax=1)
@@ -174,5 +184,5 @@ def run(cfg, R):
             tw.append(("dyn_loss == oracle with component weights reversed", eq(terms["dyn_loss"], mean([residual_sq_sum(A, i, wr) for i in range(B)]))))
         return tw
 
-    R.check(f"{kind}/B{B}/nc{nc}/{wk}/d{d}" + ("/extra" if extra else ""), tr, goals, twin_fn=twins,
-            key_fn=lambda prog, g: f"{kind}:{g}")
+    R.check(f"{kind}/B{B}/nc{nc}/{wk}/d{d}" + ("/extra" if extra else "") + ("/scalar-residual" if cfg.get("scalar_res") else ""), tr, goals, twin_fn=twins,
+            key_fn=lambda prog, g: f"{kind}:{g}" + (":scalar-residual" if cfg.get("scalar_res") else ""))
